@@ -49,6 +49,13 @@ func (e *eventStream) Receive(c *Context) {
 			level, msg, attr := logMsg.Log()
 			slog.Log(context.Background(), level, msg, attr...)
 		}
+		// A dead letter addressed to one of our subscribers means that subscriber
+		// is gone without having unsubscribed. Drop it: forwarding to it again
+		// would only produce the next dead letter, which would be forwarded to it
+		// again, and so on without end.
+		if dl, ok := c.Message().(DeadLetterEvent); ok && dl.Target != nil {
+			delete(e.subs, pidKey{address: dl.Target.Address, id: dl.Target.ID})
+		}
 		for _, sub := range e.subs {
 			c.Forward(sub)
 		}
